@@ -191,7 +191,12 @@ def run(rep, facts):
                         who = ir.peel(x[1])[2]
                         st[who] = facts.variant_name("cgi::VarNameInner", case_value(lab)) if case_value(lab) is not None else 'Custom'
             ret = ir.peel(r.ret)
-            if ret[0] == 'call' and ret[1] == fast:
+
+            def interned(a):
+                a = ir.peel(a)
+                return a[0] == 'field' and a[1][0] == 'variant' and a[1][2] == 'Static'
+            # (`lhs == rhs` on two `&StaticVarName` goes through std's by-reference forwarding impl of the same comparison)
+            if ret[0] == 'call' and (ret[1] == fast or (ret[1] == "std::cmp::impls::" + meth and len(ret[2]) == 2 and interned(ret[2][0]) and interned(ret[2][1]))):
                 n_fast += 1
                 if not (st.get('self') == 'Static' and st.get('other') == 'Static'):
                     bad.append("fast path taken for %s" % st)
